@@ -154,6 +154,19 @@ static bool parse_chain(const char *s, chain_t *c)
 	return true;
 }
 
+// struct copy + re-pointing of the option pointers into the copy (a plain `*dst = *src` would leave them pointing
+// into the source, which is usually a local of do_step)
+static void chain_copy(chain_t *dst, const chain_t *src)
+{
+	*dst = *src;
+	for (int i = 0; i < dst->n; ++i) {
+		if (src->f[i].options == NULL) continue;
+		if (src->f[i].options == (const void *)&src->lz[i]) dst->f[i].options = &dst->lz[i];
+		else if (src->f[i].options == (const void *)&src->bcj[i]) dst->f[i].options = &dst->bcj[i];
+		else if (src->f[i].options == (const void *)&src->dl[i]) dst->f[i].options = &dst->dl[i];
+	}
+}
+
 // fingerprint of a caller-owned filters array incl. the option structs it points to
 static uint64_t chain_fp(const chain_t *c)
 {
@@ -404,6 +417,7 @@ enum { K_NONE, K_SENC, K_AENC, K_RENC, K_BENC, K_MLENC, K_IENC,
 static lzma_stream strm = LZMA_STREAM_INIT;
 static int kind = K_NONE;
 static bool usable;               // last init succeeded and no fatal error since
+static bool finished;             // the encoder on the handle has returned LZMA_STREAM_END for LZMA_FINISH
 static buf_t encout, plain;       // encoder output / input since the last encoder init
 static chain_t cur_chain;         // chain of the current encoder (raw/block verification)
 static lzma_check cur_check;
@@ -483,6 +497,7 @@ static bool step_failed_alloc(void) { return TA.failed != fails_at_step_start; }
 // after a public init on `strm`
 static int after_init(lzma_ret r, int k)
 {
+	finished = false;
 	if (r == LZMA_OK) {
 		usable = true;
 		kind = k;
@@ -572,6 +587,7 @@ static int do_encode(lzma_action a, size_t len)
 	if (r == LZMA_STREAM_END && a == LZMA_FINISH) {
 		verify_encoded();
 		usable = false;   // finished: further coding needs a new init
+		finished = true;
 	}
 	return (int)r;
 }
@@ -644,7 +660,7 @@ static int do_step(char *tok)
 		if (o.dict_size != c.lz[0].dict_size || o.mf != c.lz[0].mf || o.nice_len != c.lz[0].nice_len
 				|| o.mode != c.lz[0].mode)
 			return RET_BADOP;
-		cur_chain = c; cur_check = parse_check(a[2]);
+		chain_copy(&cur_chain, &c); cur_check = parse_check(a[2]);
 		return after_init(lzma_easy_encoder(&strm, preset, cur_check), K_SENC);
 	}
 	if (!strcmp(op, "senc") && n == 3) {
@@ -653,7 +669,7 @@ static int do_step(char *tok)
 		cur_check = parse_check(a[2]);
 		lzma_ret r = lzma_stream_encoder(&strm, c.f, cur_check);
 		if (chain_fp(&c) != fp) add_err("caller-filters-modified");
-		cur_chain = c;
+		chain_copy(&cur_chain, &c);
 		return after_init(r, K_SENC);
 	}
 	if (!strcmp(op, "sencmt") && n == 5) {
@@ -668,7 +684,7 @@ static int do_step(char *tok)
 		uint64_t fp = chain_fp(&c);
 		lzma_ret r = lzma_stream_encoder_mt(&strm, &mt);
 		if (chain_fp(&c) != fp) add_err("caller-filters-modified");
-		cur_chain = c;
+		chain_copy(&cur_chain, &c);
 		return after_init(r, K_SENC);
 	}
 	if (!strcmp(op, "aenc") && n == 2) {
@@ -689,12 +705,12 @@ static int do_step(char *tok)
 		uint64_t fp = chain_fp(&c);
 		lzma_ret r = lzma_raw_encoder(&strm, c.f);
 		if (chain_fp(&c) != fp) add_err("caller-filters-modified");
-		cur_chain = c;
+		chain_copy(&cur_chain, &c);
 		return after_init(r, K_RENC);
 	}
 	if (!strcmp(op, "benc") && n == 3) {
 		if (!parse_chain(a[1], &c)) return RET_BADOP;
-		cur_chain = c;
+		chain_copy(&cur_chain, &c);
 		memset(&cur_block, 0, sizeof cur_block);
 		cur_block.version = 0;
 		cur_block.check = parse_check(a[2]);
@@ -785,16 +801,37 @@ static int do_step(char *tok)
 		return do_decode();
 	}
 	if (!strcmp(op, "upd") && n == 2) {
-		if (!usable || kind != K_SENC) return RET_SKIP;
+		// also on raw / block encoders and after LZMA_FINISH: such updates are (mostly) REFUSED by the coder, which
+		// must not cost or leak anything
+		if (!(usable || finished) || (kind != K_SENC && kind != K_RENC && kind != K_BENC)) return RET_SKIP;
 		if (!parse_chain(a[1], &c)) return RET_BADOP;
 		uint64_t fp = chain_fp(&c);
 		lzma_ret r = lzma_filters_update(&strm, c.f);
 		if (chain_fp(&c) != fp) add_err("caller-filters-modified");
 		return (int)r;
 	}
+	// ---- refused / erroneous calls: they must not allocate, free twice or leak ----
+	if ((!strcmp(op, "sdecbad") || !strcmp(op, "lzipdecbad") || !strcmp(op, "adecbad")) && n == 1) {
+		// unsupported flags: LZMA_OPTIONS_ERROR after lzma_next_coder_init() has already dealt with the old coder
+		const uint32_t bad = UINT32_C(0x8000);
+		lzma_ret r = op[0] == 's' ? lzma_stream_decoder(&strm, UINT64_MAX, bad)
+				: op[0] == 'l' ? lzma_lzip_decoder(&strm, UINT64_MAX, bad) : lzma_auto_decoder(&strm, UINT64_MAX, bad);
+		return after_init(r, K_NONE);
+	}
+	if (!strcmp(op, "memlimit") && n == 2) {
+		if (strm.internal == NULL) return RET_SKIP;
+		return (int)lzma_memlimit_set(&strm, strtoull(a[1], NULL, 10));
+	}
+	if (!strcmp(op, "badaction") && n == 1) {
+		if (strm.internal == NULL) return RET_SKIP;
+		uint8_t b = 0;
+		strm.next_in = &b; strm.avail_in = 0; strm.next_out = &b; strm.avail_out = 1;
+		return (int)lzma_code(&strm, (lzma_action)7);
+	}
 	if (!strcmp(op, "end") && n == 1) {
 		lzma_end(&strm);
 		usable = false;
+		finished = false;
 		kind = K_NONE;
 		if (strm.internal != NULL) add_err("lzma_end-left-internal");
 		if (caller_objects() == 0 && TA.nlive != 0) add_err("leak-after-lzma_end");
@@ -1168,7 +1205,7 @@ int main(void)
 		}
 		ta_reset();
 		errbuf[0] = 0; rets[0] = 0; stepno = 0; mt_seen = false;
-		usable = false; kind = K_NONE; cur_recipe = NULL; cur_slot = -1;
+		usable = false; finished = false; kind = K_NONE; cur_recipe = NULL; cur_slot = -1;
 		if (!set_failspec(tok[0])) { printf("bad-op\n"); fflush(stdout); continue; }
 		bool bad = false;
 		for (int i = 1; i < nt; ++i) {
